@@ -1,4 +1,15 @@
-"""Per-property configuration of ./check: Lean targets, property-theorem files, harnesses, trusted base."""
+"""Per-property configuration of ./check, assembled from harness/reg_C??.py (one file per property so that
+properties can be added independently).  Each reg file defines
+
+  REG  = dict(lean_targets=[...], props_files=[...], harnesses=[...], trusted_base=[...], assumptions=[...],
+              certificates=bool, uses_table=bool, timeout=dict(quick=s, thorough=s))      (all keys optional)
+  TEXT = dict(level="...", note="...", technique="...", design="DESIGN.md §3 Cxx")       (MANIFEST wording)
+"""
+import glob
+import importlib.util
+import os
+
+HERE = os.path.dirname(os.path.abspath(__file__))
 
 COMMON_TRUST = [
     "Lean 4.33 kernel; axioms propext, Classical.choice, Quot.sound only (audited per theorem on every run)",
@@ -7,19 +18,18 @@ COMMON_TRUST = [
     "CPython float.as_integer_ratio / struct packing for the bit-exact line protocol",
 ]
 
-PROPS = {}
+PROPS, TEXT = {}, {}
 
-
-def prop(pid, **kw):
+for path in sorted(glob.glob(os.path.join(HERE, "reg_C*.py"))):
+    pid = os.path.basename(path)[4:-3]
+    spec = importlib.util.spec_from_file_location("reg_" + pid, path)
+    mod = importlib.util.module_from_spec(spec)
+    spec.loader.exec_module(mod)
+    kw = dict(mod.REG)
     kw.setdefault("lean_targets", [f"OpdaProofs.Props.{pid}"])
     kw.setdefault("props_files", [f"OpdaProofs/Props/{pid}.lean"])
     kw.setdefault("harnesses", [f"corr_{pid}"])
     kw["trusted_base"] = COMMON_TRUST + kw.get("trusted_base", [])
     kw.setdefault("assumptions", [])
     PROPS[pid] = kw
-
-
-prop("C03",
-     trusted_base=["IEEE-754 rounding of numpy's cumsum/normalisation is not modelled: the theorems are about exact "
-                   "arithmetic and the gap is measured against the property's own 1e-12"],
-     assumptions=["observations are not NaN", "weights are non-negative and sum to 1 within 1e-10 (the constructor's own check)"])
+    TEXT[pid] = mod.TEXT
